@@ -42,25 +42,26 @@ type vfLogRec struct {
 	Attrs map[string]any
 }
 
-type vfLogHandler struct {
-	w *vfWorld
-}
+// vfLogHandler is installed once per process as slog's default and records into the world of the case in
+// progress (records logged while no world is current - a straggler of a finished case - are dropped).
+type vfLogHandler struct{}
 
 func (h *vfLogHandler) Enabled(context.Context, slog.Level) bool { return true }
 func (h *vfLogHandler) WithAttrs([]slog.Attr) slog.Handler        { return h }
 func (h *vfLogHandler) WithGroup(string) slog.Handler             { return h }
 func (h *vfLogHandler) Handle(_ context.Context, r slog.Record) error {
-	rec := vfLogRec{At: h.w.now(), Level: r.Level, Msg: r.Message, Attrs: map[string]any{}}
+	w := vfCurWorld.Load()
+	if w == nil {
+		return nil
+	}
+	rec := vfLogRec{At: w.now(), Level: r.Level, Msg: r.Message, Attrs: map[string]any{}}
 	r.Attrs(func(a slog.Attr) bool {
 		rec.Attrs[a.Key] = a.Value.Any()
 		return true
 	})
-	h.w.logMu.Lock()
-	h.w.logs = append(h.w.logs, rec)
-	h.w.logMu.Unlock()
-	if fn := h.w.onLog; fn != nil {
-		fn(rec)
-	}
+	w.logMu.Lock()
+	w.logs = append(w.logs, rec)
+	w.logMu.Unlock()
 	return nil
 }
 
@@ -85,14 +86,12 @@ type vfWorld struct {
 
 	logMu sync.Mutex
 	logs  []vfLogRec
-	onLog func(vfLogRec)
 
 	probeTransport *http.Transport
 
 	tearing        atomic.Bool
 	proxyWriteLag  time.Duration // applied to connections the proxy opens to targets
 	reqBodyClosed  atomic.Bool   // the inbound request body was read after net/http had closed it
-	savedLogger    *slog.Logger
 	savedTmp       string
 	closed         bool
 }
@@ -122,8 +121,6 @@ func newVFWorld(t *testing.T) *vfWorld {
 	}
 	vfCurSched.Store(nil)
 	vfCurWorld.Store(w)
-	w.savedLogger = slog.Default()
-	slog.SetDefault(slog.New(&vfLogHandler{w: w}))
 	return w
 }
 
@@ -218,6 +215,7 @@ func (vfProbeRoundTripper) RoundTrip(req *http.Request) (*http.Response, error) 
 
 func vfInstallGlobals() {
 	vfGlobalsOnce.Do(func() {
+		slog.SetDefault(slog.New(&vfLogHandler{}))
 		http.DefaultTransport = vfProbeRoundTripper{}
 		verifDial = func(ctx context.Context, network, addr string) (net.Conn, error) {
 			w := vfCurWorld.Load()
@@ -254,7 +252,6 @@ func (w *vfWorld) close() {
 		w.sched.stop() // nobody stays parked at a hook
 	}
 	vfCurSched.Store(nil)
-	w.onLog = nil
 	close(w.closeCh)
 	w.mu.Lock()
 	for _, ch := range w.holds {
@@ -305,7 +302,6 @@ func (w *vfWorld) close() {
 	synctest.Wait()
 	w.wg.Wait()
 
-	slog.SetDefault(w.savedLogger)
 	vfCurWorld.Store(nil)
 	os.Setenv("TMPDIR", w.savedTmp)
 	os.RemoveAll(w.dir)
@@ -513,6 +509,8 @@ type vfCtl struct {
 	Upgrade bool   `json:"up,omitempty"`     // hijack and tunnel (echo) until closed
 	SSE     bool   `json:"sse,omitempty"`    // event stream: one event, then hold/dur, then a second
 	NoCT    bool   `json:"noct,omitempty"`
+	Fill    string `json:"fill,omitempty"` // with Size: the byte the body is made of (default "x")
+	Parts   int    `json:"parts,omitempty"` // with Size: written in this many flushed parts
 }
 
 func (c vfCtl) header() string {
@@ -556,6 +554,19 @@ func (tg *vfTarget) ServeHTTP(rw http.ResponseWriter, r *http.Request) {
 				return
 			}
 		case "stall":
+			select {
+			case <-r.Context().Done():
+			case <-tg.w.closeCh:
+			}
+			return
+		case "status-stall": // a complete header block with the status, then a body that never ends
+			tg.mu.Lock()
+			rec.Done = tg.w.now()
+			rec.Status = status
+			tg.mu.Unlock()
+			rw.Header().Set("Content-Length", "1000")
+			rw.WriteHeader(status)
+			rw.(http.Flusher).Flush()
 			select {
 			case <-r.Context().Done():
 			case <-tg.w.closeCh:
@@ -665,14 +676,27 @@ func (tg *vfTarget) ServeHTTP(rw http.ResponseWriter, r *http.Request) {
 	}
 	var out []byte
 	if ctl.Size > 0 {
-		out = bytes.Repeat([]byte("x"), ctl.Size)
+		fill := "x"
+		if ctl.Fill != "" {
+			fill = ctl.Fill[:1]
+		}
+		out = bytes.Repeat([]byte(fill), ctl.Size)
 	} else {
 		out, _ = json.Marshal(vfEcho{Target: tg.name, ID: ctl.ID, Method: r.Method, URI: r.RequestURI, Host: r.Host,
 			Header: r.Header, BodyHash: rec.BodyHash, BodyLen: len(body)})
 	}
 	rw.Header().Set("Content-Length", strconv.Itoa(len(out)))
 	rw.WriteHeader(status)
-	rw.Write(out)
+	if ctl.Parts > 1 {
+		step := len(out)/ctl.Parts + 1
+		for off := 0; off < len(out); off += step {
+			rw.Write(out[off:min(off+step, len(out))])
+			rw.(http.Flusher).Flush()
+			runtime.Gosched()
+		}
+	} else {
+		rw.Write(out)
+	}
 	finish(false)
 }
 
